@@ -134,6 +134,49 @@ def r62(facts, res):
         res.bad(R, 'comparator', loc_of(c), 'ranking comparator is not (avoid-insert last, then shorter first): %s' % rows)
 
 
+def r62b(facts, res):
+    """`contains an avoided insertion` is an ANY over the whole sequence: true as soon as one Insert of an %avoid_insert token is
+    met, false only when the sequence is exhausted"""
+    R = 'R6.2'
+    b = facts.one(R, 'simplify_repairs', crate='lrpar', name='simplify_repairs')
+    clos = [c for c in facts.closures_of(b) if c.lty(0) == 'bool' and c.calls_named('avoid_insert')]
+    if len(clos) != 1:
+        res.lost(R, 'the closure testing a sequence for avoided insertions was not found (%d candidates)' % len(clos))
+        return
+    c = clos[0]
+    loops = c.loops()
+    if len(loops) != 1:
+        res.lost(R, 'expected one loop in the avoid-insert test')
+        return
+    h = list(loops)[0]
+    pr = facts.adt('lrpar::parser::ParseRepair')
+    ins_d = [v['discr'] for v in pr['variants'] if v['name'] == 'Insert'][0]
+    w = Walker(c, facts, max_paths=64)
+    ps = w.run(h, stop=lambda x: x == h)
+    probs = []
+    n = 0
+    for p in ps:
+        if p.end[0] != 'return':
+            continue
+        n += 1
+        got = [v for cd, v in p.conds if cd[0] == 'discr' and is_call(cd[1], 'next')]
+        exhausted = got == [0]
+        ret = p.end[1]
+        if exhausted:
+            if ret != ('const', 0):
+                probs.append('an exhausted sequence is reported as containing an avoided insertion')
+            continue
+        av = [v for cd, v in p.conds if is_call(cd, 'avoid_insert')]
+        isins = [v for cd, v in p.conds if cd[0] == 'discr' and not is_call(cd[1], 'next') and isinstance(v, int)]
+        if ret != ('const', 1) or av != [1] or ins_d not in isins:
+            probs.append('the scan stops at an element and returns %s (insert=%s avoided=%s): only "this element is an avoided insertion" may end the scan early, with true'
+                         % (fmt_term(ret)[:40], ins_d in isins, av))
+    if probs or n < 2:
+        res.bad(R, 'avoid-any', loc_of(c, h), '; '.join(sorted(set(probs))) or 'could not read the avoid-insert scan')
+    else:
+        res.ok(R, 'avoid-any', loc_of(c, h), 'true at the first avoided insertion anywhere in the sequence, false only when the sequence is exhausted')
+
+
 def r63(facts, res):
     R = 'R6.3'
     n = 0
@@ -405,6 +448,7 @@ def r67(facts, res):
 def run(facts, res):
     r61(facts, res)
     r62(facts, res)
+    r62b(facts, res)
     r63(facts, res)
     r64(facts, res)
     r65(facts, res)
